@@ -689,7 +689,25 @@ func (m *Machine) build(op Op, pid, secret string) *harness.Req {
 		if method == "" {
 			method = m.W.AB.Config.Modules.LogoutMethod
 		}
-		return &harness.Req{Browser: b, Method: method, Path: P("/logout")}
+		q := &harness.Req{Browser: b, Method: method, Path: P("/logout")}
+		// hints with which proxies / html forms ask a server to treat the request as another method: the
+		// library promises to react to the configured method only, so none of them may have any effect
+		configured := m.W.AB.Config.Modules.LogoutMethod
+		switch op.S2 {
+		case "hdr":
+			q.Headers = map[string]string{"X-HTTP-Method-Override": configured}
+		case "hdr2":
+			q.Headers = map[string]string{"X-Method-Override": configured, "X-HTTP-Method": configured}
+		case "query":
+			q.RawQuery = "_method=" + configured
+		case "querylower":
+			q.RawQuery = "_method=" + strings.ToLower(configured)
+		case "form":
+			if method != "GET" && method != "HEAD" {
+				q.Form = map[string]string{"_method": configured}
+			}
+		}
+		return q
 	case "visit":
 		return &harness.Req{Browser: b, Method: "GET", Path: op.S, RawQuery: op.S2}
 	case "set":
@@ -844,6 +862,11 @@ func (m *Machine) Exec(i int, op Op) *Violation {
 	case "lock":
 		if ka := m.KB.acct(op.A % max(1, len(m.KB.Accts))); ka != nil {
 			_ = m.W.Lock.Lock(context.Background(), ka.PID)
+			if op.S == "far" && m.W.Store.Peek(ka.PID) != nil {
+				// an operator's ban: a deadline far beyond anything LockDuration produces
+				far := time.Date(2300+op.N%6000, 1, 1, 0, 0, 0, 0, time.UTC)
+				m.W.Store.Mutate(ka.PID, func(u *harness.User) { u.Locked = far })
+			}
 		}
 	case "unlock":
 		if ka := m.KB.acct(op.A % max(1, len(m.KB.Accts))); ka != nil {
